@@ -103,7 +103,7 @@ func (c06) once(c *Ctx, i int) CaseResult {
 		return res
 	}
 	if fc.Invalid != "" {
-		res.Skipped = "invalid-query"
+		res.Skipped = "invalid-query:" + fc.Invalid
 		return res
 	}
 	if i >= len(c06Corpus) {
